@@ -79,7 +79,11 @@ impl Triple {
 
 pub fn gen_triple(e: &mut Ent, cfg: &TypeCfg) -> Option<Triple> {
     let (env, sc) = gen_env(e, cfg);
-    let ty = gen_ty(e, &sc, cfg.max_depth, cfg);
+    let mut ty = gen_ty(e, &sc, cfg.max_depth, cfg);
+    if cfg.wide_table && e.ratio(1, 25) {
+        let n = e.range(60, 140);
+        ty = crate::gen::types::deep_wrap(e, ty, n);
+    }
     let mut b = Builder::new(&env);
     let root = b.ty(&ty).ok()?;
     let graph = b.graph;
@@ -585,6 +589,7 @@ impl Check for C10 {
         let mut e = Ent::new(data);
         let mut cfg = TypeCfg::default();
         cfg.odd_labels = e.ratio(1, 4);
+        cfg.wide_table = true;
         let tr = match gen_triple(&mut e, &cfg) {
             Some(t) => t,
             None => return Outcome::Skip("uninhabited-type"),
@@ -594,6 +599,9 @@ impl Check for C10 {
         }
         if !tr.env.defs.is_empty() {
             ctx.class("with-definitions");
+        }
+        if tr.graph.nodes.len() > 64 {
+            ctx.class("type-graph-over-64-nodes");
         }
         match &tr.val {
             RVal::Variant(..) => ctx.class("variant-root"),
